@@ -84,8 +84,28 @@ func SetGlobalLoader(tag string) {
 			c.LoaderTags = append(c.LoaderTags, tag)
 			return c.Loader(u)
 		}
+		if c != nil && c.Shadow != nil {
+			c.ShadowReqs++
+			return c.Shadow(u)
+		}
 		return nil, fmt.Errorf("simulated store: package-level loader called outside an operation for %q", u)
 	}
+}
+
+// takesOptions reports the entry points to which the caller hands a document loader of its own
+// (all others can only use the package-level one).
+func takesOptions(entry string) bool {
+	switch entry {
+	case "ExpandSpec", "ExpandSchemaWithBasePath", "ResolvePathItem", "ResolveItems":
+		return true
+	}
+	return strings.HasSuffix(entry, "WithBase")
+}
+
+// ShadowLoader is what the package-level loader finds while a call that injected its own loader
+// runs: every document of the world, without faults (the "disk" behind the injected loader).
+func ShadowLoader(w *model.World) func(string) (json.RawMessage, error) {
+	return sim.NewStore(w.Docs, nil).Loader(&sim.ReqLog{})
 }
 
 // ---------------------------------------------------------------------------------------
@@ -202,7 +222,11 @@ func ExecOp(op Op, env *Env) *OpResult {
 	w := env.World
 	ctx := sim.NewOpCtx(env.OrderKey, env.Budget)
 	loader := env.Store.Loader(res.Log)
-	ctx.Loader = loader
+	if op.GlobalLoader || op.Base == "<nil-options>" || !takesOptions(op.Entry) {
+		ctx.Loader = loader
+	} else {
+		ctx.Shadow = ShadowLoader(w)
+	}
 	if !env.Sched {
 		ctx.Funcs = FuncCounts
 	}
